@@ -16,12 +16,15 @@
        model's matrix is characterised in terms of ALL points of the plane (section (c'), below).
        The older ..._partial theorems are kept.  What remains unformalised is only the passage from
        the combinatorial characterisation (only vertices / a non-vertex point / a point off every
-       segment) to topological dimension, and - as before - the overlay engine of the Go code, which
-       is tied to this model by the correspondence run. *)
+       segment) to topological dimension, and the construction and labelling of the overlay by the
+       Go code: section (c'') models the extraction of the matrix from the labelled overlay and
+       proves it right for sound labels; the labels of every real overlay are judged by the driver. *)
 From Coq Require Import QArith List Bool ZArith NArith.
+From SF Require Import Model.SetOpSpec Model.OverlayComplex.
 From SF Require Import Base.GeomAST Base.QKernel Base.Planar Proofs.Planar_proofs
   Model.RelatePatterns Model.Relate Proofs.RelateMatch_proofs Proofs.Relate_proofs
-  Proofs.Planar_slab_base Proofs.Planar_slab Proofs.Planar_slab_dim Proofs.Relate_slab_proofs.
+  Proofs.Planar_slab_base Proofs.Planar_slab Proofs.Planar_slab_dim Proofs.Relate_slab_proofs
+  Model.RelateComplex Proofs.RelateComplex_proofs.
 Import ListNotations.
 Local Close Scope Q_scope.
 Local Open Scope nat_scope.
@@ -387,3 +390,68 @@ Print Assumptions witnesses_decide_everywhere.
 (* non-vacuity: the hypothesis rings_closed holds of the example squares, and an entry of each kind occurs *)
 Example ex_rings_closed : forall y, In y (g_polys (sq 0 0 2 2)) -> forall r, In r (poly_rings y) -> pts_closed (line_pts r) = true.
 Proof. intros y [<-|[]] r [<-|[]]. vm_compute. reflexivity. Qed.
+
+(* ------------------------------------------------------------------ (c'') Go's extraction from the labelled overlay *)
+(* Model/RelateComplex.v transcribes geom/dcel_extract_intersection_matrix.go on the overlay complex
+   (C01's Model/OverlayComplex.v + the per-vertex location flags).  The labelling itself (re-noding, radial
+   sort, flood fill, mod-2 flags) stays outside the model: it is checked on every real overlay, cell by
+   cell, by the driver (SPEC dcel_labels_sound).  Given sound labels, the extraction is proved right. *)
+
+(* the matrix depends only on the SETS of location pairs: no dependence on Go's map iteration order *)
+Theorem extraction_order_free : forall vs vs' es es' fs fs' : list (loc * loc),
+  Permutation.Permutation vs vs' -> Permutation.Permutation es es' -> Permutation.Permutation fs fs' ->
+  matrix_of_cells vs es fs = matrix_of_cells vs' es' fs'.
+Proof. exact matrix_of_cells_order_free. Qed.
+Print Assumptions extraction_order_free.
+
+(* the three overwriting loops compute the max-by-dimension matrix *)
+Theorem extraction_is_max : forall vs es fs : list (loc * loc),
+  matrix_of_cells vs es fs = de9im_of (tagged vs es fs) /\
+  forall la lb, mget (matrix_of_cells vs es fs) la lb =
+    if memb la lb fs then D2 else if memb la lb es then D1 else if memb la lb vs then D0 else DF.
+Proof. exact (fun vs es fs => conj (matrix_of_cells_is_max vs es fs) (mget_matrix_of_cells vs es fs)). Qed.
+Print Assumptions extraction_is_max.
+
+(* exchanging the operands on the same overlay transposes the matrix (None = the panic of a vertex without incident edge) *)
+Theorem extraction_transpose : forall x : xcomplex,
+  matrix_of_complex (swap_x x) = option_map transpose (matrix_of_complex x).
+Proof. exact matrix_of_complex_swap. Qed.
+Print Assumptions extraction_transpose.
+
+(* vertexRecord.location takes the location of an ARBITRARY incident half edge: any choice gives the
+   same answer when the incident half edges agree (checked on every real overlay: SPEC dcel_incidents_agree) *)
+Theorem extraction_pick_free : forall (x : xcomplex) (i : nat) (l : vloc * vloc) (op : bool) (e : hedgeR),
+  incidents_agree x = true -> nth_error (x_locs x) i = Some l ->
+  vl_boundary (op_loc l op) = false -> vl_interior (op_loc l op) = false ->
+  In e (incidents (x_c x) i) -> vertex_loc (x_c x) i l op = Some (edge_loc (x_c x) e op).
+Proof. exact pick_any_incident. Qed.
+Print Assumptions extraction_pick_free.
+
+(* MAIN: if the cells of the overlay (vertices, half edges, faces; with any assignment of a witness point
+   and a point set to each) cover the plane, the operands do not change location inside a cell, the
+   dimensions are honest (0-cells are arrangement vertices, 1-cells lie on segments, witnesses of 1-cells
+   are no vertices, witnesses of 2-cells lie on no segment) and the LABELS ARE SOUND - the pair of
+   locations Go computed for the cell equals the definitional locate of the two operands at the cell's
+   witness - then the matrix Go extracts is the reference matrix de9im_ref a b, whose entries are
+   characterised by all points of the plane (relate_entries_characterised).  Closed rings are the only
+   hypothesis on the operands. *)
+Theorem relate_engine_right_if_labels_sound :
+  forall (a b : geom) (x : xcomplex) (m : matrix) (vs : list (loc * loc))
+         (wit : ccell -> pt) (inC : ccell -> pt -> Prop),
+  rings_closed a -> rings_closed b ->
+  let L := canon_segs (arr_segments a ++ arr_segments b) in
+  let V := vertex_set L (canon_pts (arr_points a ++ arr_points b)) in
+  let cells := cells_of (List.length vs) (List.length (edge_cells x)) (List.length (face_cells x)) in
+  let lab := ccell_lab vs (edge_cells x) (face_cells x) in
+  vertex_cells x = Some vs ->
+  matrix_of_complex x = Some m ->
+  (forall p, exists c, In c cells /\ inC c p) ->
+  (forall c p, In c cells -> inC c p -> locate a p = locate a (wit c) /\ locate b p = locate b (wit c)) ->
+  (forall c p, In c cells -> ccell_dim c = D0 -> inC c p -> is_vertex V p = true) ->
+  (forall c p, In c cells -> ccell_dim c = D1 -> inC c p -> on_some_seg L p = true \/ is_vertex V p = true) ->
+  (forall c, In c cells -> ccell_dim c = D1 -> is_vertex V (wit c) = false) ->
+  (forall c, In c cells -> ccell_dim c = D2 -> on_some_seg L (wit c) = false /\ is_vertex V (wit c) = false) ->
+  (forall c, In c cells -> lab c = (locate a (wit c), locate b (wit c))) ->
+  m = de9im_ref a b.
+Proof. exact relate_of_sound_overlay. Qed.
+Print Assumptions relate_engine_right_if_labels_sound.
